@@ -35,7 +35,7 @@ PEXPR = "(last_idx if (last_idx >= 0 and not has(%s, %s)) else last_idx + 1)" % 
 contract(
     SM, "_start_flow", prop="C08",
     block=("last_idx = -1", "if f'${last_idx + 1}' in event_arguments"),
-    vars={"flow_state": "V", "event_arguments": "V", "last_idx": "i"},
+    vars={"flow_state": "V", "event_arguments": "V", "last_idx": "i"}, must_reach=["flow_state.context[arg] = event_arguments[pos_arg]", "break"],
     requires=["is_obj(flow_state)", "has(flow_state, 'arguments')", "has(flow_state, 'context')", "has(flow_state, 'flow_id')",
               "is_list(%s)" % A, "is_dict(%s)" % CTX, "is_dict(%s)" % E, "%s is not %s" % (CTX, E),
               "all(is_str(x) for x in %s)" % A,
